@@ -46,7 +46,7 @@ def gen_cases(tier, seed):
                      "nested-no_grad", "backward-inside-no_grad",
                      "matmul-chain", "matmul-chain-no_grad-parameter", "dropout-noise", "frozen-net-rollout",
                      "concat-rolling-window", "stack-rolling-window", "linear-nobias-plain", "linear-nobias-frozen-no_grad",
-                     "catalogue-plain", "catalogue-no_grad"):
+                     "catalogue-plain", "catalogue-no_grad") + (("catalogue-plain-each-alone", "catalogue-no_grad-each-alone") if n == 10000 else ()):
             cases.append({"kind": "untracked", "n": n, "mode": mode, "seed": int(rng.integers(2 ** 31))})
     cases.append({"kind": "weakref", "seed": 0})
     for n in (300, 1000) + ((3000,) if tier == "thorough" else ()):
@@ -334,6 +334,34 @@ def run_case(ns, mon, c):
                     w = body(w)
                     if (i + 1) % step == 0:
                         samples.append(mon.live_count() - base)
+        elif catalogue is not None and c["mode"].endswith("-each-alone"):
+            # every op of the catalogue alone, applied to its own result again and again (h = h.transpose(0, 1) in a loop): a reference from a
+            # result to its operand that a mixed sequence would cut after one step shows here as a chain as long as the loop
+            import contextlib
+            reps_ = max(200, min(600, n // 20))
+            with (sg.no_grad() if "no_grad" in c["mode"] else contextlib.nullcontext()), np.errstate(all="ignore"):
+                for k_op, op_ in enumerate(catalogue):
+                    v_ = T(np.full((1, 8), 0.125), name="state")
+                    for i in range(5):
+                        v_ = op_(v_)
+                    gc.collect()
+                    b0 = mon.live_count()
+                    mid_ = None
+                    for i in range(reps_):
+                        v_ = op_(v_)
+                        if i == reps_ // 2:
+                            mid_ = mon.live_count() - b0
+                    end_ = mon.live_count() - b0
+                    samples.append(end_)
+                    if end_ - mid_ > 8 or end_ > 24:
+                        viol.append(V(f"untracked:live-tensors-grow:{c['mode']}", f"live Tensor objects grow when catalogue op #{k_op} is applied to its own result {reps_} times "
+                                      f"without tracking ({mid_} extra live tensors half-way, {end_} at the end)", n=reps_, op_index=k_op))
+                        break
+                    if v_.requires_grad or v_.grad_fn is not None:
+                        viol.append(V("untracked:result-tracks-history", f"catalogue op #{k_op}: a result of an untracked computation requires grad / has a grad_fn"))
+                        break
+            w = v_
+            counters["single_op_loops"] = len(samples)
         elif catalogue is not None:
             import tracemalloc, contextlib
             with (sg.no_grad() if c["mode"] == "catalogue-no_grad" else contextlib.nullcontext()), np.errstate(all="ignore"):
@@ -367,7 +395,7 @@ def run_case(ns, mon, c):
             if n >= 20000 and grow > 4096 + 1.0 * iters:
                 viol.append(V(f"untracked:memory-grows:{c['mode']}", f"memory held after an untracked loop grows with its length ({c['mode']}): {grow} bytes over the last {iters} updates "
                               f"(traced bytes at ten points: {mem_samples})", n=n))
-        if max(samples) - min(samples) > 8 or max(samples) > 40:
+        if not c["mode"].endswith("-each-alone") and (max(samples) - min(samples) > 8 or max(samples) > 40):
             viol.append(V(f"untracked:live-tensors-grow:{c['mode']}", f"live Tensor objects grow with the length of an untracked loop ({c['mode']}): samples {samples}",
                           n=n))
         mon.drain()
